@@ -20,6 +20,17 @@ CHECKS = {
             'Trusts vlib/refcat.py; erased names are unary feature values.', '§4 C13'),
 }
 
+CHECKS['C06'] = (
+    'icontract post-conditions on the real Unification.__call__/__getitem__ vs a reference matcher; pattern instantiation + perturbation workload',
+    'Success/failure verdict and every binding of every call are compared with the reference matcher over the grammar\'s pattern pairs and random ones; '
+    'read-after-failure and second-call are driven explicitly; held-on-observed.',
+    'Trusts vlib/refunify.py; a pattern variable occurs once per pattern; one feature system per call.', '§4 C06')
+CHECKS['C03'] = (
+    'icontract post-condition on the real en.apply_binary_rules vs a schema table (soundness of every result, converse on identical parts); '
+    'inventory pairs, seen-rule pairs, rule closure, perturbed schema instantiations',
+    'Every result of every call is judged against the schema its label names; Unification contracts stay on underneath; held-on-observed.',
+    'Trusts vlib/schemas_en.py; unary features only; judged on nb-erased inputs.', '§4 C03')
+
 NOT_YET = {}
 
 
